@@ -124,6 +124,14 @@ static void die_report(const char *term, int code) {
 	_exit(code);
 }
 
+/* the simulator itself ran out of a resource (mappings, memory, arena): not a verdict about the program */
+static void resource_limit(const char *what) {
+	static int once;
+	if (once++) _exit(99);
+	fprintf(stderr, "simheap: resource limit: %s\n", what);
+	die_report("resource_limit", 99);
+}
+
 static void violation(const char *inv, uintptr_t pc, uintptr_t addr, const char *fmt, ...) {
 	if (nviol < 16) {
 		viol_t *v = &viols[nviol++];
@@ -139,7 +147,7 @@ static void violation(const char *inv, uintptr_t pc, uintptr_t addr, const char 
 
 static void *sys_grow(void *old, size_t oldn, size_t newn) {
 	void *p = mmap(NULL, newn, PROT_READ | PROT_WRITE, MAP_PRIVATE | MAP_ANONYMOUS, -1, 0);
-	if (p == MAP_FAILED) _exit(99);
+	if (p == MAP_FAILED) resource_limit("mmap of the simulator's own tables failed");
 	if (old) { memcpy(p, old, oldn); munmap(old, oldn); }
 	return p;
 }
@@ -191,7 +199,8 @@ static uintptr_t check_canary(uintptr_t lo, uintptr_t hi) {
 static size_t roundup(size_t n, size_t a) { return (n + a - 1) / a * a; }
 
 static void commit(uintptr_t lo, uintptr_t hi) {
-	if (hi > lo && mprotect((void *)lo, hi - lo, PROT_READ | PROT_WRITE) != 0) _exit(99);
+	/* fails with ENOMEM when the process has too many mappings (every guarded block is one) or memory runs out */
+	if (hi > lo && mprotect((void *)lo, hi - lo, PROT_READ | PROT_WRITE) != 0) resource_limit("mprotect failed: too many live blocks for guard pages, or out of memory");
 }
 
 /* allocate a new slot for n bytes */
@@ -255,8 +264,7 @@ static block_t *slot_alloc(size_t n) {
 		}
 	}
 	if (bump > ARENA_BASE + ARENA_SIZE - (1UL << 30)) {
-		fprintf(stderr, "simheap: arena exhausted\n");
-		die_report("arena_exhausted", 99);
+		resource_limit("arena exhausted");
 	}
 	b->state = ST_LIVE;
 	b->size = n;
